@@ -365,6 +365,13 @@ pub fn log_to_request_ext(
             sends.push(id);
         }
     }
+    // an injected producer death (`panic_producer:<k>`) is logged after the `send` line of the
+    // send it prevents: that last announced send never happened
+    let injected_pd = out.log.iter().any(|(_, kind, _)| kind == "producer_died");
+    if injected_pd {
+        sends.pop();
+    }
+    let prod_died = prod_died || injected_pd;
     let mut taken = vec![false; sends.len()];
     let mut holding: BTreeMap<String, usize> = BTreeMap::new(); // thread -> item number
     let mut wev: Vec<Vec<String>> = vec![vec![]; threads];
@@ -451,6 +458,23 @@ pub fn log_to_request_ext(
         })
         .collect();
     req.push_str(&format!(" O:{}", order));
+    // the order of the lock / unlock log lines of all consumers: both are written inside the
+    // critical section, so for a mutex that excludes they must alternate
+    let locks: Vec<String> = out
+        .log
+        .iter()
+        .filter_map(|(thread, kind, _)| {
+            let w = thread.strip_prefix("Consumer_")?;
+            match kind.as_str() {
+                "lock" => Some(format!("{}l", w)),
+                "unlock" => Some(format!("{}u", w)),
+                _ => None,
+            }
+        })
+        .collect();
+    if !locks.is_empty() {
+        req.push_str(&format!(" X:{}", locks.join(",")));
+    }
     if prod_died {
         req.push_str(" PD");
     }
